@@ -1,7 +1,8 @@
 // Appended (at check time, in a scratch copy only) to src/lib.rs
 // A1 value facts and operator identities of contracts/float.rs, checked on the machine's f64 for ALL bit patterns
 // (complete: loop-free harness over two symbolic f64): `<` is irreflexive, negation is an involution on the bit pattern,
-// f64::MAX == f64::MAX, a > b is b < a, a >= b is b <= a, a != b is !(a == b).
+// f64::MAX == f64::MAX, a > b is b < a, a >= b is b <= a, a != b is !(a == b); 0.0 != MAX, x + 1.0 == MAX only if x == MAX,
+// == is Euclidean.
 #[cfg(kani)]
 mod verif_kani_float {
     #[kani::proof]
@@ -14,5 +15,10 @@ mod verif_kani_float {
         assert!((a > b) == (b < a));
         assert!((a >= b) == (b <= a));
         assert!((a != b) == !(a == b));
+        // the level facts of the hop-count kernels
+        let c: f64 = kani::any();
+        assert!(!(0.0f64 == f64::MAX));
+        if !(a == f64::MAX) { assert!(!(a + 1.0 == f64::MAX)); }
+        if a == b && a == c { assert!(b == c); }
     }
 }
